@@ -486,6 +486,17 @@ void h_ratom_read_bounded(void)
 	__CPROVER_assert(pat > p && pat <= p + n + 1, "ratom_read: the reader consumes at least one byte and stops at or before the terminator");
 	if (ra.ra == RA_CHR)
 		__CPROVER_assert(ra.s != 0 && ra.s[pat - p - (p[0] == '\\' ? 1 : 0)] == 0, "ratom_read: the literal copied is exactly the bytes consumed");
+	/* C16: on a well-formed tail the run ends on a character boundary, and a repetition operator applies to one whole character */
+	int l0 = uc_len(p), wf = 1;
+	for (i = 1; i < 4; i++)
+		if (i < l0 && (i >= n || ((unsigned char) p[i] & 0xc0) != 0x80))
+			wf = 0;
+	if (((unsigned char) p[0] & 0xc0) == 0x80 || (unsigned char) p[0] >= 0xf8 || l0 > n)
+		wf = 0;
+	if (wf && l0 + 1 == n && ra.ra == RA_CHR && p[0] != '\\' && (p[l0] == '*' || p[l0] == '?' || p[l0] == '+' || p[l0] == '{'))
+		__CPROVER_assert(pat == p + l0, "ratom_read: a repetition operator applies to one whole character");
+	if (wf && l0 == n && ra.ra == RA_CHR && p[0] != '\\')
+		__CPROVER_assert(pat == p + n, "ratom_read: a literal character is consumed whole (the run ends on a character boundary)");
 #ifdef CANARY
 	__CPROVER_assert(0, "canary");
 #endif
